@@ -405,7 +405,14 @@ theorem window_ok_of_clean (cfg : MaskCfg) (w p : Bytes) (h : cleanWindow w) : m
 /-- **Non-owner, any window the scan passes over**: `mask_other` with `cleanWindow` replaced by the
 condition actually needed. The window may contain `%`, `%%`, even `%%%` – as long as no position in it
 decodes as a container start when read in front of the real container (left window) resp. on its own
-(right window). -/
+(right window).
+
+This is a PARTIAL statement. The full statement of the property – for ALL clear windows, "values
+containing the pattern or envelope tags" included, the reader receives window and pattern and "never any
+byte of the ciphertext" – is FALSE on the pinned tree: see `mask_other_window_counterexample` below (a
+false container header inside the window makes the scan step over the real container's header and
+hand the rest of the container to the reader). The hypothesis `maskWindowOk` is exactly the negation of
+the input class of the known finding `window-false-header-shows-container-bytes`. -/
 theorem mask_other_window (c : CryptoOps) (kvW kvR : KeyView) (cfg : MaskCfg) (v rnd p stored : Bytes)
     (hpat : cfg.pattern ≠ [])
     (hwin : maskWindowOk cfg (windowPart cfg v) p = true)
@@ -413,6 +420,54 @@ theorem mask_other_window (c : CryptoOps) (kvW kvR : KeyView) (cfg : MaskCfg) (v
     (hw : maskWrite c kvW cfg v rnd = .ok stored) :
     maskRead c kvR cfg stored = .ok (joinSides cfg (windowPart cfg v) cfg.pattern) true :=
   maskRead_nonOwner_win c kvW kvR cfg v rnd p stored hpat hwin h hw
+
+set_option maxRecDepth 100000 in
+/-- **Counterexample to the full statement (known finding `window-false-header-shows-container-bytes`).**
+Masked column, left window of 15 bytes, pattern `*`, AcraBlock kind (transparent-box instance; the reader
+has NO keys, so no property of the cryptography is involved). The value is
+`%%%%` `12 00 00 00 00 00 00 00` `f0` `%%` `%rcd`: its clear window `%%%% 12 00…00 f0 %%` holds, from its
+second byte on, a well-formed container header declaring 18 bytes. The write is correct (`NonOwnerHyps`
+holds: the hidden part `%rcd` is sealed into the container `p`). On read the false header is taken for a
+container, replaced by the pattern, and the scan advances by the declared 18 bytes – past the first 4
+bytes of the real container `p`. What the key-less reader receives is `%` `*` followed by **`p` without its
+first four bytes** (envelope id, the whole AcraBlock with wrapped key and ciphertext) – not window and
+pattern, and it contains container bytes. `maskWindowOk` is false for this window, as it must be. -/
+theorem mask_other_window_counterexample :
+    let cfg : MaskCfg := ⟨[42], 15, true, .block⟩
+    let v : Bytes := [37,37,37,37,18,0,0,0,0,0,0,0,240,37,37,37,114,99,100]
+    let kvW : KeyView := ⟨none, none, some [1,2,3], none⟩
+    let kvN : KeyView := ⟨none, none, none, none⟩
+    ∃ stored p, maskWrite boxOps kvW cfg v (List.replicate 56 5) = .ok stored ∧
+      stored = windowPart cfg v ++ p ∧ NonOwnerHyps boxOps kvW kvN cfg v (List.replicate 56 5) p ∧
+      maskWindowOk cfg (windowPart cfg v) p = false ∧
+      maskRead boxOps kvN cfg stored = .ok ([37] ++ cfg.pattern ++ p.drop 4) true ∧
+      maskRead boxOps kvN cfg stored ≠ .ok (joinSides cfg (windowPart cfg v) cfg.pattern) true ∧
+      150 < (p.drop 4).length := by
+  intro cfg v kvW kvN
+  obtain ⟨st, hst⟩ : ∃ st, maskWrite boxOps kvW cfg v (List.replicate 56 5) = .ok st := by
+    cases h : maskWrite boxOps kvW cfg v (List.replicate 56 5) with
+    | ok e => exact ⟨e, rfl⟩
+    | err => exact absurd h (by decide)
+    | panic => exact absurd h (by decide)
+  have hev : st = (match maskWrite boxOps kvW cfg v (List.replicate 56 5) with | .ok b => b | _ => []) := by rw [hst]
+  have hsplit : st = [37] ++ (st.drop 1).take 18 ++ st.drop 19 := by rw [hev]; decide
+  have hread : maskRead boxOps kvN cfg st = .ok ([37] ++ cfg.pattern ++ st.drop 19) true := by
+    have := maskRead_false_header boxOps kvN cfg [37] ((st.drop 1).take 18) (st.drop 19) (by decide)
+      (by rw [hev]; decide) (by rw [hev]; decide) (by rw [hev]; decide) (by rw [hev]; decide)
+      (fun m => process_no_keys boxOps kvN rfl rfl _ m) (by rw [hev]; decide) (by rw [hev]; decide)
+      (by rw [hev]; decide)
+    rw [← hsplit] at this
+    exact this
+  have hd : (st.drop 15).drop 4 = st.drop 19 := by rw [List.drop_drop]
+  refine ⟨st, st.drop 15, hst, by rw [hev]; decide, ?_, by rw [hev]; decide, by rw [hd]; exact hread, ?_, by rw [hev]; decide⟩
+  · exact ⟨by decide, by decide, by rw [hev]; decide, by rw [hev]; decide,
+      fun m => process_no_keys boxOps kvN rfl rfl _ m, Or.inl (by decide)⟩
+  · rw [hread]
+    intro h
+    have := congrArg (fun o => match o with | ScanOut.ok b _ => b.length | _ => 0) h
+    revert this
+    rw [hev]
+    decide
 
 /-- **Owner, any window the scan passes over**: `mask_owner` under the weaker window condition. -/
 theorem mask_owner_window (c : CryptoOps) (kvW kvR : KeyView) (cfg : MaskCfg) (v rnd stored : Bytes)
